@@ -5,6 +5,8 @@ RULES = {
     "C02": "a pod name bound in >=2 incarnations, or a filter that takes a reserved IP (AllocateInSubnetWithKey)",
     "C03": "at least one binding and one release/reserve call",
     "C04": "at least one binding and one unbind / resync / API release operation",
+    "C06": "a scheduler cycle: a filter run to its end directly followed by the bind of that pod on an offered node (coverage counts c06_win*: "
+           "filters / fresh default pods / holders / binds / documented wait refusals that the predicates judged)",
     "C07": "at least one allocation made during filter (sized pool or reserve path)",
     "C10": "both AssignIP and UnAssignIP provider calls occur",
 }
@@ -24,5 +26,6 @@ def c01(run, a): generic(run, a, "C01", {"quick": ["ipam_sts_default.cfg"], "tho
 def c02(run, a): generic(run, a, "C02", {"quick": ["ipam_sts_immutable_q.cfg"], "thorough": ["ipam_sts_immutable.cfg", "ipam_dp_immutable_q.cfg"]})
 def c03(run, a): generic(run, a, "C03", {"quick": ["ipam_sts_immutable_q.cfg"], "thorough": ["ipam_sts_immutable.cfg", "ipam_dp_immutable_q.cfg"]})
 def c04(run, a): generic(run, a, "C04", {"quick": ["ipam_sts_default.cfg", "ipam_sts_cloud.cfg"], "thorough": ["ipam_sts_default_t.cfg", "ipam_sts_immutable.cfg", "ipam_sts_cloud.cfg"]})
+def c06(run, a): generic(run, a, "C06", {"quick": ["ipam_topo_q.cfg"], "thorough": ["ipam_topo.cfg", "ipam_topo_ranges.cfg"]})
 def c07(run, a): generic(run, a, "C07", {"quick": ["ipam_dp_pool_q.cfg"], "thorough": ["ipam_dp_pool_q.cfg", "ipam_dp_immutable_q.cfg"]})
 def c10(run, a): generic(run, a, "C10", {"quick": ["ipam_sts_cloud.cfg"], "thorough": ["ipam_sts_cloud.cfg", "ipam_sts_default_t.cfg"]})
